@@ -124,6 +124,21 @@ def run(ctx) -> None:
 
     # ---------------------------------------------------------------- R17.1
     r1 = ctx.rule("R17.1", "dataSmooth chains every axis smoother through one accumulator")
+    # dataSmooth is a cached property: a shallow copy of a result carries the smoothed data of its parent; a derived result that is made by
+    # copying self and replacing .data must drop that cache entry
+    ecls_ = idx.cls(ER, "EnergyResult")
+    cached_ = [m_.name for m_ in ecls_.methods.values() if any(d_.endswith("cached_property") for d_ in m_.decorators)]
+    for m_ in ecls_.methods.values():
+        cps_ = [c_ for c_ in ast.walk(m_.node) if isinstance(c_, ast.Call) and call_name(c_) in ("copy.copy", "copy") and len(c_.args) == 1 and norm(c_.args[0]) == "self"]
+        if not cps_:
+            continue
+        txt_ = norm(m_.node)
+        stores_data_ = any(isinstance(st_, ast.Assign) and isinstance(st_.targets[0], ast.Attribute) and st_.targets[0].attr == "data" for st_ in ast.walk(m_.node))
+        for cp_ in cached_:
+            dropped_ = f"pop('{cp_}'" in txt_ or f"del " in txt_ and f".{cp_}" in txt_ or f"__dict__['{cp_}']" in txt_
+            r1.check(dropped_ or not stores_data_, f"{m_.name}: the copied object's cached `{cp_}` is dropped", m_, cps_[0],
+                     f"`{norm1(cps_[0])}` in EnergyResult.{m_.name} copies the object including an already evaluated cached `{cp_}` and then replaces `.data`: the derived "
+                     f"result returns the parent's smoothed data whenever the parent's `{cp_}` had been read before", stmt=f"shallow copy keeps {cp_}")
     f = idx.function(ER, "EnergyResult.dataSmooth")
     cfg, du, pm = fctx(f)
     FS = Sem(idx, f)
@@ -216,6 +231,17 @@ def run(ctx) -> None:
     if len(inp) != 1 or len(retg) != 1:
         raise AnalysisError("AbstractSmoother.__call__: expected one re-ordering of the input and one return")
     r2.instance(f"{g.short}: {norm1(inp[0], 70)} … {norm1(retg[0], 70)}")
+    # the buffer that receives the convolution must be able to hold the values of the input (complex results are smoothed too)
+    for st_ in stmts(g.node):
+        if isinstance(st_, ast.Assign) and isinstance(st_.value, ast.Call) and call_name(st_.value) in ("np.zeros", "np.empty", "np.ones", "np.full") \
+                and isinstance(st_.targets[0], ast.Name) and any(isinstance(x_, ast.Subscript) and isinstance(x_.value, ast.Name) and x_.value.id == st_.targets[0].id
+                                                                 for y_ in stmts(g.node) if isinstance(y_, ast.Assign) for x_ in y_.targets):
+            dt_ = next((k_.value for k_ in st_.value.keywords if k_.arg == "dtype"), None)
+            dtt_ = norm(dt_) if dt_ is not None else "float (numpy default)"
+            wide_ = dt_ is not None and (arr_name in names_in(dt_) or "complex" in dtt_)
+            r2.check(wide_, "the accumulation buffer takes its dtype from the input (or is complex)", g, st_,
+                     f"`{norm1(st_)}` accumulates the convolution in dtype {dtt_}: the imaginary part of complex data is discarded when the smoothed "
+                     f"values are stored, so S(x + iy) ≠ S(x) + i·S(y)", stmt="smoother buffer dtype")
     bad = None
     n = 0
     for ndim in range(1, 7):
@@ -377,6 +403,8 @@ def run(ctx) -> None:
 from ..selftest import V  # noqa: E402
 
 SELFTEST = [
+    V("smoothing buffer fixed to float (seeded C17-m5)", SM, "res = np.zeros(A.shape, dtype=A.dtype)", "res = np.zeros(A.shape, dtype=float)", "fire", "R17.2"),
+    V("smoothing buffer from np.result_type of the input", SM, "res = np.zeros(A.shape, dtype=A.dtype)", "res = np.zeros(A.shape, dtype=np.result_type(A, float))", "silent", "R17.2"),
     V("every pass smooths the raw data (original defect)", ER, "data_tmp = self.smoothers[i](data_tmp, axis=i)",
       "data_tmp = self.smoothers[i](self.data, axis=i)", "fire", "R17.1"),
     V("axis hard-wired to 0", ER, "data_tmp = self.smoothers[i](data_tmp, axis=i)",
